@@ -5,6 +5,9 @@ package main
 // classification in /verif/spec/redis_commands.json (specification data).
 
 import (
+	"go/types"
+	"golang.org/x/tools/go/ssa"
+	"golang.org/x/tools/go/ssa/ssautil"
 	"encoding/json"
 	"fmt"
 	"go/ast"
@@ -154,9 +157,104 @@ func (p *Program) handlerKeys(pkgPath string) ([]string, bool) {
 	return out, found
 }
 
+// runWriterChecks: structural obligations "only the listed functions store to this field".
+func runWriterChecks(prog *Program, prop string) []tableResult {
+	var res []tableResult
+	for _, wc := range prog.cs.Writers {
+		has := false
+		for _, p := range wc.Props {
+			if p == prop {
+				has = true
+			}
+		}
+		if !has {
+			continue
+		}
+		allowed := map[string]bool{}
+		for _, f := range wc.Funcs {
+			allowed[f] = true
+		}
+		name := "writers/" + wc.Field
+		var bad []string
+		nStores := 0
+		for fn := range ssautil.AllFunctions(prog.ssa) {
+			if fn.Pkg == nil && fn.Parent() == nil {
+				continue
+			}
+			top := fn
+			for top.Parent() != nil {
+				top = top.Parent()
+			}
+			if top.Pkg == nil || !strings.HasPrefix(top.Pkg.Pkg.Path(), prog.module) {
+				continue
+			}
+			rel := funcRelName(top)
+			for _, b := range fn.Blocks {
+				for _, ins := range b.Instrs {
+					fa, ok := ins.(*ssa.FieldAddr)
+					if !ok {
+						continue
+					}
+					pt := fa.X.Type().Underlying().(*types.Pointer).Elem()
+					nt, ok := pt.(*types.Named)
+					if !ok || nt.Obj().Pkg() == nil || nt.Obj().Pkg().Path() != wc.Pkg {
+						continue
+					}
+					st := pt.Underlying().(*types.Struct)
+					if nt.Obj().Name()+"."+st.Field(fa.Field).Name() != wc.Field {
+						continue
+					}
+					for _, r := range *fa.Referrers() {
+						switch u := r.(type) {
+						case *ssa.UnOp, *ssa.DebugRef:
+						case *ssa.Store:
+							if u.Addr == ssa.Value(fa) {
+								nStores++
+								if !(top.Pkg.Pkg.Path() == wc.Pkg && allowed[rel]) {
+									bad = append(bad, top.Pkg.Pkg.Path()+"."+rel+" stores to it")
+								}
+							} else {
+								bad = append(bad, top.Pkg.Pkg.Path()+"."+rel+" stores its address")
+							}
+						default:
+							if !(top.Pkg.Pkg.Path() == wc.Pkg && allowed[rel]) {
+								bad = append(bad, fmt.Sprintf("%s.%s lets its address escape (%T)", top.Pkg.Pkg.Path(), rel, r))
+							}
+						}
+					}
+				}
+			}
+		}
+		for _, f := range wc.Funcs {
+			fc := prog.cs.Funcs[wc.Pkg+"."+f]
+			if fc == nil {
+				bad = append(bad, f+" has no contract")
+				continue
+			}
+			okp := false
+			for _, p := range fc.Props {
+				if p == prop {
+					okp = true
+				}
+			}
+			if !okp {
+				bad = append(bad, f+" is not under contract for "+prop)
+			}
+		}
+		sort.Strings(bad)
+		r := tableResult{Name: name, OK: len(bad) == 0}
+		r.Detail = fmt.Sprintf("%d stores to %s.%s in the module, all inside %s", nStores, wc.Pkg, wc.Field, strings.Join(wc.Funcs, ", "))
+		if !r.OK {
+			r.Detail = strings.Join(bad, "; ")
+		}
+		res = append(res, r)
+	}
+	return res
+}
+
 func runTableChecks(prog *Program, prop string) []tableResult {
 	if prop != "C14" {
-		return nil
+		return runWriterChecks(prog, prop)
 	}
 	var res []tableResult
 	data, err := os.ReadFile(filepath.Join(specDir, "redis_commands.json"))
